@@ -114,7 +114,11 @@ def run_c07(sc):
             # a raising guard counts as false: behaviour may differ; the interpreter must stay alive
             fo = [r for r in res.trace if r[K] == "obs" and r[4] == "final"]
             bo = [r for r in base.trace if r[K] == "obs" and r[4] == "final"]
-            if fo and bo and fo[-1][6]["status"] != bo[-1][6]["status"] and fo[-1][6]["status"] in ("stopped", "error"):
+            # (a guard that counts as false on a failing service's onError leaves the failure unhandled: `error` is then the
+            # specified outcome, not a casualty of the raising guard)
+            svc_failed = any(r[K] in ("svc-error",) or (r[K] == "svc-end" and r[6] == "raise") for r in res.trace)
+            if fo and bo and fo[-1][6]["status"] != bo[-1][6]["status"] and fo[-1][6]["status"] in ("stopped", "error") \
+                    and not (fo[-1][6]["status"] == "error" and svc_failed):
                 vios.append(Violation("C07", "guard-fault-killed-interpreter", sig,
                                       f"raising guard at call {plan}: status became {fo[-1][6]['status']}"))
                 break
